@@ -73,11 +73,13 @@ def run_once(cx, n_st, n_sess, H, early, times, reqs, choices, table, algo_kind)
 
         def post_charging_update(self):
             full = {sid: bool(self.get_ev(sid).fully_charged) for sid in self.station_ids if self.get_ev(sid) is not None}
+            before = {sid: (self.get_ev(sid).session_id if self.get_ev(sid) is not None else None) for sid in self.station_ids}
             n0 = len(rec)
             super().post_charging_update()
             del rec[n0:]  # the unplug calls made by early departure are summarised by the period record
             st = self._state("period")
             st["full"] = full
+            st["before"] = before  # who was connected while this period's charging took place
             rec.append(st)
 
     net = RecNet(early_departure=early)
